@@ -96,8 +96,8 @@ def cases(draw):
     op = st.one_of(
         st.tuples(st.just("add_node"), node).map(list),
         st.tuples(st.just("add_nodes"), st.lists(node, min_size=1, max_size=3)).map(list),
-        st.tuples(st.just("add_nodes"), st.lists(node, min_size=1, max_size=3), st.just("$gen")).map(list),
-        st.tuples(st.just("add_links"), st.lists(triple, min_size=1, max_size=3), st.just("$gen")).map(list),
+        st.tuples(st.just("add_nodes"), st.lists(node, min_size=1, max_size=3), st.sampled_from(["$gen", "$keys", "$view"])).map(list),
+        st.tuples(st.just("add_links"), st.lists(triple, min_size=1, max_size=3), st.sampled_from(["$gen", "$keys"])).map(list),
         st.tuples(st.just("add_path"), path(), st.one_of(st.none(), orig), st.one_of(st.none(), dest), st.just("$gen")).map(list),
         st.tuples(st.just("add_link"), node, link, node).map(list),
         st.tuples(st.just("add_links"), st.lists(triple, min_size=1, max_size=3)).map(list),
@@ -106,7 +106,8 @@ def cases(draw):
         st.tuples(st.just("add_path"), path(), st.one_of(st.none(), orig), st.one_of(st.none(), dest)).map(list),
         st.tuples(st.just("add_path"), path(), st.one_of(st.none(), orig), st.one_of(st.none(), dest)).map(list),
     )
-    return {"universe": UNI, "ops": draw(st.lists(op, min_size=1, max_size=20))}
+    uni = dict(UNI, net_class="subclass") if draw(st.integers(0, 2)) == 0 else UNI
+    return {"universe": uni, "ops": draw(st.lists(op, min_size=1, max_size=20))}
 
 
 def strategy(tier):
@@ -154,6 +155,11 @@ def compare_graph(ctx, sim, where, opname):
 
 def check_case(case, ctx):
     sim = G.Sim(case["universe"])
+    if case["universe"].get("net_class"):
+        ctx.label("network:" + case["universe"]["net_class"])
+    for op in case["ops"]:
+        if isinstance(op[-1], str) and op[-1] in ("$gen", "$keys", "$view"):
+            ctx.label("bulk-argument:" + op[-1][1:])
     for k, op in enumerate(case["ops"]):
         before = sim.model.copy()
         where = f"after op {k} {op}"
